@@ -649,6 +649,52 @@ theorem strainG_undeformed (mag : V3 K → K) (cosMax big : K) (c : Cell K) (pos
   exact ⟨rfl, strain_one.1, strain_one.2⟩
 
 
+/-- **solveG_undeformed_extra_shells.**  The undeformed crystal analysed with a current neighbour list that holds MORE
+    than the reference set (further shells): every reference vector occurs among the current ones, every other current
+    vector is longer than every reference vector.  Here the hypotheses of `solveG_homogeneous_competing` are *proved*
+    from geometry (`cos θ_max < 1`, positive square root, no two reference vectors parallel): each reference vector is
+    its own best match, and a farther-shell vector that finds a reference vector inside `θ_max` — however many of them
+    do — loses it to that vector itself, which is closer to `r1`.  Hence `G = I` for every `θ_max`. -/
+theorem solveG_undeformed_extra_shells (mag : V3 K → K) (cosMax big : K) (ps qs : List (V3 K))
+    (hc : cosMax < 1)
+    (hmag : ∀ p ∈ ps, 0 < mag p ∧ mag p * mag p = V3.normSq p)
+    (hsep : ps.Pairwise (fun a b => V3.dot a b < mag a * mag b))
+    (hsub : ∀ p ∈ ps, p ∈ qs)
+    (hext : ∀ q ∈ qs, q ∉ ps → ∀ p ∈ ps, mag p < mag q)
+    (hne : matchPQ mag cosMax big ps qs ≠ [])
+    (hrank : M3.det (qtq (matchPQ mag cosMax big ps qs)) ≠ 0) :
+    solveG mag cosMax big ps qs = M3.one := by
+  have hdet : M3.det (M3.one : M3 K) ≠ 0 := by simp [M3.det, M3.one, V3.dot, V3.cross]
+  have hI : M3.inv (M3.one : M3 K).transpose = M3.one := by
+    ext <;> simp [M3.inv, M3.transpose, M3.one, M3.det, V3.dot, V3.cross]
+  rw [← hI]
+  -- a reference vector at position `a` is its own best match
+  have hself : ∀ a (ha : a < ps.length), bestP mag cosMax ps[a] ps = some a := by
+    intro a ha
+    have hdec : ps = ps.take a ++ ps[a] :: ps.drop (a + 1) := by
+      rw [List.getElem_cons_drop, List.take_append_drop]
+    have hlen : (ps.take a).length = a := by simp [List.length_take]; omega
+    have := bestP_self mag cosMax (ps.take a) (ps.drop (a + 1)) ps[a] hc (by rw [← hdec]; exact hmag)
+      (by rw [← hdec]; exact hsep)
+    rw [← hdec, hlen] at this
+    exact this
+  apply solveG_homogeneous_competing mag cosMax big ps qs M3.one hdet (fun q => q ∈ ps) ?_ ?_ hne hrank
+  · intro q _ hg a p hb hp
+    rw [one_mulVec]
+    obtain ⟨k, hk, rfl⟩ := List.getElem_of_mem hg
+    have := hself k hk
+    rw [this] at hb
+    have hka : k = a := Option.some.inj hb
+    subst hka
+    rw [List.getElem?_eq_getElem hk] at hp
+    exact Option.some.inj hp
+  · intro q hq hg a hb
+    have ha := bestP_lt mag cosMax q ps a hb
+    refine ⟨ps[a], hsub _ (List.getElem_mem ha), List.getElem_mem ha, hself a ha, ?_⟩
+    apply rad_lt_of_longer
+    · exact (shortest_le mag ps big).2 _ (List.getElem_mem ha)
+    · exact hext q hq hg _ (List.getElem_mem ha)
+
 /-! ### the whole `ddvectors` array; the `numpy.unique` / `numpy.interp` models -/
 
 /-- **ddvectors_are_differences.**  The whole array `DifferentialDisplacement.ddvectors` (atoms ascending, neighbours in
@@ -852,6 +898,31 @@ example :
     exact h2 q hq hg a (h3 q hq a hb) hb
   · decide +kernel
   · decide +kernel
+
+/-- hypotheses of `solveG_undeformed_extra_shells`: three orthogonal reference vectors of length 5, a current list that
+    also holds the doubled and tripled vectors (several of them inside `θ_max` of one reference vector), `G = I`. -/
+def exQs4 : List (V3 ℚ) := [⟨10, 0, 0⟩, ⟨0, 5, 0⟩, ⟨15, 0, 0⟩, ⟨5, 0, 0⟩, ⟨0, 0, 10⟩, ⟨0, 0, 5⟩]
+example :
+    (qpPairs exMag1 (891/1000) 10000000000000000 exPs3 exQs4).map (·.2) = [none, some 1, none, some 0, none, some 2] ∧
+    solveG exMag1 (891/1000) 10000000000000000 exPs3 exQs4 = M3.one := by
+  refine ⟨by decide +kernel, ?_⟩
+  apply solveG_undeformed_extra_shells exMag1 _ _ exPs3 exQs4 (by decide +kernel) (by decide +kernel) (by decide +kernel)
+  · intro p hp
+    simp only [exPs3, List.mem_cons, List.mem_nil_iff, or_false] at hp
+    rcases hp with rfl | rfl | rfl <;> simp [exQs4]
+  · intro q hq hn p hp
+    simp only [exQs4, List.mem_cons, List.mem_nil_iff, or_false] at hq
+    simp only [exPs3, List.mem_cons, List.mem_nil_iff, or_false] at hp
+    rcases hq with rfl | rfl | rfl | rfl | rfl | rfl
+    · rcases hp with rfl | rfl | rfl <;> decide +kernel
+    · exact absurd (by simp [exPs3]) hn
+    · rcases hp with rfl | rfl | rfl <;> decide +kernel
+    · exact absurd (by simp [exPs3]) hn
+    · rcases hp with rfl | rfl | rfl <;> decide +kernel
+    · exact absurd (by simp [exPs3]) hn
+  · decide +kernel
+  · decide +kernel
+
 
 /-- hypothesis of `nye_zero` / the general case: a constant field gives zero, a varying one does not. -/
 example :
